@@ -725,7 +725,11 @@ def run(ctx):
                              (2 ** 14 + 1, 2 ** 14 + 1, 2 ** 14, 2 ** 14),
                              (ctx.rng.choice([64, 100]), ctx.rng.choice([64, 100]), 2 ** 14, 2 ** 14)]
                 else:
-                    picks = [(a, b, ctx.rng.choice(users), ctx.rng.choice(users)) for a in rsls for b in rsls]
+                    # the full 4x4 grid of limits for two representative ciphers, the diagonal + 2 random pairs for the rest
+                    grid = [(a, b) for a in rsls for b in rsls]
+                    if ci not in ('aes128', 'aes128gcm'):
+                        grid = [(a, a) for a in rsls] + [ctx.rng.choice(grid), ctx.rng.choice(grid)]
+                    picks = [(a, b, ctx.rng.choice(users), ctx.rng.choice(users)) for a, b in grid]
                     picks += [(2 ** 14 + 1, 2 ** 14 + 1, u, u) for u in users]
                     picks += [(None, 2 ** 14 + 1, 2 ** 14, 2 ** 14), (100, None, 2 ** 14, 100)]
                 for (a, b, uc, us) in picks:
